@@ -285,6 +285,7 @@ func (c *Ctx) edgeMustFail(fn *ssa.Function, from, to *ssa.BasicBlock, seed func
 		},
 	}
 	st := NewState()
+	st.assumeDominating(from)
 	if seed != nil {
 		seed(st)
 	}
@@ -396,7 +397,20 @@ func c16Verify(c *Ctx) {
 		return
 	}
 	var worker, walker *ssa.Function
-	for _, cl := range closures(fn) {
+	// the closures of Verify and of the new helpers it calls (a factory that builds the callback)
+	var cands []*ssa.Function
+	seenC := map[*ssa.Function]bool{}
+	for _, f := range withClosures(fn) {
+		for _, g := range fnsDeep(f) {
+			for _, g2 := range withClosures(g) {
+				if g2.Parent() != nil && !seenC[g2] {
+					seenC[g2] = true
+					cands = append(cands, g2)
+				}
+			}
+		}
+	}
+	for _, cl := range cands {
 		if len(calls(cl, suffixed("LocalStore).GetChunk"))) > 0 {
 			worker = cl
 		}
@@ -530,6 +544,11 @@ func c16NameRoundtrip(c *Ctx) {
 				case *ssa.Call:
 					if nm := callee(x); nm == "strings.Split" || nm == "strings.SplitN" {
 						trace(x.Call.Args[0], depth+1)
+						continue
+					}
+				case *ssa.Extract:
+					if cc, ok := x.Tuple.(*ssa.Call); ok && callee(cc) == "strings.Cut" && x.Index < 2 {
+						trace(cc.Call.Args[0], depth+1)
 						continue
 					}
 				}
